@@ -52,6 +52,15 @@ type Ev struct {
 	Rows *[]SeeRow `json:"rows,omitempty"`
 	Via  string    `json:"via,omitempty"`
 	Val  int       `json:"val"`
+	// containers
+	M     int      `json:"m"`
+	W     int      `json:"w"`
+	Fresh int      `json:"fresh"`
+	Panic bool     `json:"panic"`
+	Frame *[][]int `json:"frame,omitempty"`
+	N     int      `json:"n"`
+	V     int      `json:"v"`
+	Ok    bool     `json:"ok"`
 }
 
 type rec struct {
@@ -516,6 +525,120 @@ func (r *rec) eval(corpus []string) {
 	}
 }
 
+// containers: random operation sequences on a real move.Store and stack.Stack
+func (r *rec) containers() {
+	for !r.full() {
+		r.t++
+		st := move.NewStore()
+		sk := stack.New[int]()
+		r.emit(&Ev{Ev: "snew"})
+		frame := func() *[][]int {
+			res := [][]int{}
+			for _, w := range st.Frame() {
+				res = append(res, []int{int(w.Move), int(w.Weight)})
+			}
+			return &res
+		}
+		big := r.rng.Intn(12) == 0 // now and then run the store up to its capacity
+		overflowed := false
+		for i, n := 0, 30+r.rng.Intn(150); i < n && !r.full() && !overflowed; i++ {
+			switch c := r.rng.Intn(100); {
+			case c < 18:
+				st.Push()
+				r.emit(&Ev{Ev: "spush", Frame: frame()})
+			case c < 30:
+				st.Pop()
+				r.emit(&Ev{Ev: "spop", Frame: frame()})
+			case c < 70:
+				k := 1
+				if big && r.rng.Intn(4) == 0 {
+					k = 400
+				}
+				for j := 0; j < k && !r.full(); j++ {
+					m, w := r.rng.Intn(1<<15), r.rng.Intn(2001)-1000
+					e := &Ev{Ev: "salloc", M: m, W: w}
+					func() {
+						defer func() {
+							if x := recover(); x != nil {
+								e.Panic = true
+							}
+						}()
+						p := st.Alloc(move.Move(m))
+						e.Fresh = int(p.Weight)
+						p.Weight = Score(w)
+					}()
+					if !e.Panic && k == 1 {
+						e.Frame = frame()
+					}
+					r.emit(e)
+					if e.Panic {
+						overflowed = true
+						break
+					}
+				}
+				if overflowed {
+					break // the store is documented to be unusable after running out of space
+				}
+				if k > 1 {
+					// resynchronise the frame observation after the bulk allocation
+					st.Push()
+					r.emit(&Ev{Ev: "spush", Frame: frame()})
+				}
+			case c < 73:
+				st.Clear()
+				r.emit(&Ev{Ev: "sclear", Frame: frame()})
+			case c < 85:
+				v := r.rng.Intn(1000)
+				e := &Ev{Ev: "kpush", V: v}
+				func() {
+					defer func() {
+						if recover() != nil {
+							e.Panic = true
+						}
+					}()
+					sk.Push(v)
+				}()
+				r.emit(e)
+			case c < 92:
+				e := &Ev{Ev: "kpop"}
+				func() {
+					defer func() {
+						if recover() != nil {
+							e.Panic = true
+						}
+					}()
+					sk.Pop()
+				}()
+				r.emit(e)
+			case c < 99:
+				n := r.rng.Intn(5)
+				v, ok := sk.Top(n)
+				r.emit(&Ev{Ev: "ktop", N: n, V: v, Ok: ok})
+			default:
+				sk.Reset()
+				r.emit(&Ev{Ev: "kreset"})
+			}
+		}
+		// fill the history stack to its capacity once in a while
+		if r.rng.Intn(5) == 0 {
+			sk.Reset()
+			r.emit(&Ev{Ev: "kreset"})
+			for j := 0; j < 66 && !r.full(); j++ {
+				e := &Ev{Ev: "kpush", V: j}
+				func() {
+					defer func() {
+						if recover() != nil {
+							e.Panic = true
+						}
+					}()
+					sk.Push(j)
+				}()
+				r.emit(e)
+			}
+		}
+	}
+}
+
 func boolInt(b bool) int {
 	if b {
 		return 1
@@ -555,6 +678,8 @@ func main() {
 		r.see(corpus)
 	case "eval":
 		r.eval(corpus)
+	case "containers":
+		r.containers()
 	}
 	fmt.Fprintln(os.Stderr, "events", r.n)
 }
